@@ -10,6 +10,8 @@
 pub use self::delta::{DeltaArcIter, PayloadDelta};
 pub use self::history::{PayloadHistory, SharedHistory};
 pub use self::info::PayloadInfo;
+#[cfg(routinator_verif)]
+pub use self::info::PublishInfo;
 pub use self::snapshot::{
     PayloadSnapshot, SnapshotArcAspaIter, SnapshotArcIter,
     SnapshotArcOriginIter, SnapshotArcRouterKeyIter,
